@@ -157,6 +157,24 @@ def judge(d, res, wpal=None):
     if not (np.all(np.isfinite(A)) and np.all(np.isfinite(B)) and np.all(np.isfinite(C)) and np.all(np.isfinite(D))):
         add_violation(res, "tf_equals_phasor", case, "finite matrices", "nan/inf", "model contains non-finite entries")
         return
+    # the wrapper's output lists are free: any selection, order and unequal lengths give the corresponding rows of the full model
+    bump(res["hits"], "output_selection")
+    rowof = {("p", nd): k for k, nd in enumerate(nodes)}
+    rowof.update({("v", i): len(nodes) + k for k, i in enumerate(ids)})
+    rowof.update({("i", i): len(nodes) + len(ids) + k for k, i in enumerate(ids)})
+    for sel in ((nodes, ids, ids[:1]), (nodes[:1], ids[:1], ids[::-1]), ([], ids[::-1], []), (nodes[::-1], [], ids[1:]), ([], ids[-1:], ids[:-1])):
+        try:
+            part = state_space_model(circ, potential_nodes=list(sel[0]), voltage_ids=list(sel[1]), current_ids=list(sel[2]))
+            want = [rowof[("p", x)] for x in sel[0]] + [rowof[("v", x)] for x in sel[1]] + [rowof[("i", x)] for x in sel[2]]
+            Cp, Dp = np.asarray(part.C, float), np.asarray(part.D, float)
+            if Cp.shape != (len(want), A.shape[0]) or Dp.shape != (len(want), B.shape[1]) or \
+                    (len(want) and (np.abs(Cp - C[want]).max() > 1e-12 * max(1.0, np.abs(C).max()) or np.abs(Dp - D[want]).max() > 1e-12 * max(1.0, np.abs(D).max()))):
+                add_violation(res, "tf_equals_phasor", dict(case, outputs=[list(x) for x in sel]), "rows %s of the model with all outputs" % want, [list(Cp.shape), list(Dp.shape)],
+                              "output rows for a selection of potentials/voltages/currents are not the rows of the same outputs in the full model")
+                return
+        except Exception as e:
+            add_violation(res, "tf_equals_phasor", dict(case, outputs=[list(x) for x in sel]), "a model", "%s: %s" % (type(e).__name__, e), "model construction raised for a selection of outputs", kind="exception:" + type(e).__name__)
+            return
     state_ids = [c[1] for c in caps] + [c[1] for c in inds]
     nontrivial = False
     cond_max = 1e10
